@@ -494,4 +494,4 @@ def _known_f21(facet, case, violation):
 
 KNOWN = {"F8-aware-time": _known_f8, "F9-time-fraction": _known_f9, "F21-nesting-limit": _known_f21}
 
-FACETS = [Facet("file", strategy, check, classify, quick=2400, thorough=100000)]
+FACETS = [Facet("file", strategy, check, classify, quick=2400, thorough=300000)]
